@@ -112,14 +112,21 @@ def mean_dataset(rng):
     maps = [[rng.randint(-9, 9) + 10 * i for i in range(n)] for n in shape]
     ds = DatasetType("d")
     with_dims = rng.random() < 0.7
-    ds["a"] = BaseType("a", data, dims=tuple(dims)) if with_dims else BaseType("a", data)
+    a_dims = list(dims)
+    if with_dims and rank >= 2 and rng.random() < 0.4:
+        # a plain array may name two axes alike (legal in DAP2, e.g. a covariance cov[x][x])
+        pairs = [(i, j) for i in range(rank) for j in range(i + 1, rank) if shape[i] == shape[j]]
+        if pairs:
+            i, j = rng.choice(pairs)
+            a_dims[j] = a_dims[i]
+    ds["a"] = BaseType("a", data, dims=tuple(a_dims)) if with_dims else BaseType("a", data)
     g = GridType("g")
     g["v"] = BaseType("v", data, dims=tuple(dims))
     for d, m in zip(dims, maps):
         g[d] = BaseType(d, np.array(m, dtype="i4"), dims=(d,))
     ds["g"] = g
     ds["w"] = BaseType("w", np.arange(3, dtype="i4"))
-    return ds, {"dt": dt, "shape": shape, "dims": dims, "data": [int(x) for x in data.reshape(-1)], "maps": maps, "a_dims": dims if with_dims else []}
+    return ds, {"dt": dt, "shape": shape, "dims": dims, "data": [int(x) for x in data.reshape(-1)], "maps": maps, "a_dims": a_dims if with_dims else []}
 
 
 def mean_checks(ctx, tier, rng):
@@ -161,9 +168,15 @@ def mean_checks(ctx, tier, rng):
                             "status 200", size=len(q) + sum(info["shape"]))
             continue
         head, _, payload = res["body"].partition(b"Data:\n")
-        _, decl, _ = G.parse_dds(head.decode("ascii"))
-        vals = G.decode_dods_values(decl, payload)
         ddstext = head.decode("ascii")
+        try:
+            _, decl, _ = G.parse_dds(ddstext)
+            vals = G.decode_dods_values(decl, payload)
+        except Exception as e:      # the declaration and the data of the answer do not fit together
+            ctx.oracle_fail("mean: the declaration of the result disagrees with the data sent", case,
+                            "%s: %s | %s" % (type(e).__name__, e, ddstext[:200]), {"shape": shp, "dims": dims},
+                            size=len(q) + sum(info["shape"]))
+            continue
         # locate the function result in the declaration
         if target == "g":
             ent = [e for e in decl if e[0] == "g" and e[1] == "g"]
